@@ -247,6 +247,9 @@ class FieldNamer:
         if lt is None or lt.k != 'struct': return
         if 'DIFlagFwdDecl' in d.get('flags', '') or 'elements' not in d:
             return
+        sc = self.di.node(d.get('scope'))
+        if sc is not None and sc.get('_kind') == 'DICompositeType' and sc.get('name') == '__coro_frame_ty':
+            return      # synthetic member type of a coroutine frame's debug info: the real class definition is mapped through its own seeds
         self.map[name] = d['_id']
         if name.endswith('.base'):
             pass
